@@ -440,7 +440,7 @@ def direct(case, obs):
 # ---------------------------------------------------------------- rendering for Tie/C19.v
 
 BAD = ('{| c_cfg := {| ac_combo := Alone; ac_deg := 0%nat; ac_tbl := []; ac_li := 0%nat; ac_off := 0%nat; ac_S := 1%Z; ac_R := 3%Z |}; '
-       'c_procs := []; c_nloci := 0%nat; c_nodes := []; c_edges := []; c_init := []; c_maxtime := 0; c_sync := false; c_rands := []; '
+       'c_procs := []; c_nloci := 0%nat; c_nodes := []; c_edges := []; c_init := []; c_maxtime := 0; c_sync := false; c_fuel := 0%nat; c_rands := []; '
        'c_lns := []; c_draws := []; c_adraws := []; o_snaps := []; o_handlers := []; o_taps := []; o_final_loci := []; o_time := 0; '
        'o_events := 0%nat; o_steps := 0%nat; o_ok := false |}')
 
@@ -507,11 +507,12 @@ def to_coq(case, obs):
     handlers = ['(%s, %s, %s, %s)' % (L.nat(en['k']), L.q(en['t']), c_elem(en['e']), L.b(en['member'])) for en in obs['entries']]
     taps = ['(%s, %s, false, %s)' % (L.q(s['t']), L.nat(max(0, s['pi'])), c_elem(s['e'])) for s in obs['snaps']]
     fin = obs['final']
-    return ('{| c_cfg := %s; c_procs := %s; c_nloci := %s; c_nodes := %s; c_edges := %s; c_init := %s; c_maxtime := %s; c_sync := %s; '
+    return ('{| c_cfg := %s; c_procs := %s; c_nloci := %s; c_nodes := %s; c_edges := %s; c_init := %s; c_maxtime := %s; c_sync := %s; c_fuel := %s; '
             'c_rands := %s; c_lns := %s; c_draws := %s; c_adraws := %s; o_snaps := %s; o_handlers := %s; o_taps := %s; o_final_loci := %s; '
             'o_time := %s; o_events := %s; o_steps := %s; o_ok := true |}') % (
         cfg, L.lst(procs), L.nat(len(names)), L.lst(st['nodes'], L.z), L.lst(st['edges'], L.zpair), L.lst(init, L.zpair),
         L.q(case['maxtime']), L.b(case['dynamics'] == 'synchronous'),
+        L.nat(int(case['maxtime']) + 2 if case['dynamics'] == 'synchronous' else len(obs['rands']) - st['rand'] + 2),
         L.lst(obs['rands'][st['rand']:], L.q), L.lst(obs['lns'], L.q), L.lst([max(0, d) for d in obs['draws']], L.nat),
         L.lst([max(0, d) for d in obs['adraws']], L.nat), L.lst(snaps), L.lst(handlers), L.lst(taps),
         L.lst([L.lst(fin['loci'][nm], c_elem) for nm in names]), L.q(obs['time']), L.nat(obs['events']), L.nat(obs.get('steps') or 0))
